@@ -1,9 +1,9 @@
-from asyncio import gather
+from asyncio import CancelledError, gather
 from collections.abc import Iterable
 from contextlib import AbstractAsyncContextManager
 from itertools import chain
 from types import TracebackType
-from typing import final
+from typing import cast, final
 
 from haiway.state import State
 from haiway.utils import freeze
@@ -45,14 +45,62 @@ class Disposables:
                 return multiple
 
     async def __aenter__(self) -> Iterable[State]:
-        return [
-            *chain.from_iterable(
-                state
-                for state in await gather(
-                    *[self._initialize(disposable) for disposable in self._disposables],
-                )
+        entered: list[Disposable] = []
+
+        async def initialize(
+            disposable: Disposable,
+            /,
+        ) -> Iterable[State]:
+            state: Iterable[State] = await self._initialize(disposable)
+            entered.append(disposable)
+            return state
+
+        failure: BaseException | None = None
+        results: list[Iterable[State] | BaseException] = []
+        try:
+            results = await gather(
+                *[initialize(disposable) for disposable in self._disposables],
+                return_exceptions=True,  # let all finish, never leave any entering detached
             )
+            failures: list[BaseException] = [
+                result for result in results if isinstance(result, BaseException)
+            ]
+            if len(failures) > 1:
+                failure = BaseExceptionGroup("Disposables initialization errors", failures)
+
+            elif failures:
+                failure = failures[0]
+
+        except BaseException as exc:  # cancelled while entering
+            failure = exc
+
+        if failure is None:
+            return [*chain.from_iterable(cast(list[Iterable[State]], results))]
+
+        # entering failed - exit those which were already entered before raising
+        errors: list[BaseException] = [
+            result
+            for result in await gather(
+                *[
+                    disposable.__aexit__(
+                        type(failure),
+                        failure,
+                        failure.__traceback__,
+                    )
+                    for disposable in entered
+                ],
+                return_exceptions=True,
+            )
+            if isinstance(result, BaseException)
         ]
+        if not errors:
+            raise failure
+
+        elif isinstance(failure, CancelledError):  # cancellation has to propagate as itself
+            raise failure from BaseExceptionGroup("Disposing errors", errors)
+
+        else:
+            raise BaseExceptionGroup("Disposables initialization errors", [failure, *errors])
 
     async def __aexit__(
         self,
